@@ -390,15 +390,21 @@ theorem cinv_setLink (c : Cluster) (a b : PeerName) (l : Link) (hc : CInv c) (hl
 theorem broker?_mem (c : Cluster) (p : PeerName) (b : Broker) (h : c.broker? p = some b) : b ∈ c.brokers :=
   List.mem_of_find?_eq_some h
 
-theorem nodup_pending_merge (g d : Pending) (hg : ∀ m, g = .data m → NoDup m) (hd : ∀ m, d = .data m → NoDup m) :
-    ∀ m, g.merge d = .data m → NoDup m := by
-  intro m h
-  cases g <;> cases d <;> simp [Pending.merge] at h
-  subst h
-  exact nodup_merge _ _ (hg _ rfl)
+theorem nodup_payload (cur : Map) (hcur : NoDup cur) (g : Pending) (hg : ∀ m, g = .data m → NoDup m) :
+    NoDup (g.payload cur) := by
+  cases g with
+  | complete => exact hcur
+  | data m => exact hg m rfl
 
-theorem linkInv_send (l : Link) (d : Pending) (hl : LinkInv l) (hd : ∀ m, d = .data m → NoDup m) :
-    LinkInv (l.send d) := by
+theorem nodup_pending_merge (cur : Map) (hcur : NoDup cur) (g d : Pending) (hg : ∀ m, g = .data m → NoDup m) :
+    ∀ m, g.merge cur d = .data m → NoDup m := by
+  intro m h
+  simp only [Pending.merge, Pending.data.injEq] at h
+  subst h
+  exact nodup_merge _ _ (nodup_payload cur hcur g hg)
+
+theorem linkInv_send (l : Link) (cur : Map) (hcur : NoDup cur) (d : Pending) (hl : LinkInv l)
+    (hd : ∀ m, d = .data m → NoDup m) : LinkInv (l.send cur d) := by
   unfold Link.send
   split
   · exact hl
@@ -409,7 +415,7 @@ theorem linkInv_send (l : Link) (d : Pending) (hl : LinkInv l) (hd : ∀ m, d = 
     | none => rw [hg] at hm; exact hd m hm
     | some g =>
       rw [hg] at hm
-      exact nodup_pending_merge g d (fun m' h' => hl.gossip m' (by rw [hg, h'])) hd m hm
+      exact nodup_pending_merge cur hcur g d (fun m' h' => hl.gossip m' (by rw [hg, h'])) m hm
 
 theorem linkInv_broadcast (l : Link) (src : PeerName) (m : Map) (hl : LinkInv l) (hm : NoDup m) :
     LinkInv (l.broadcast src m) := by
@@ -431,6 +437,12 @@ theorem linkInv_broadcast (l : Link) (src : PeerName) (m : Map) (hl : LinkInv l)
       · exact nodup_merge _ _ (hl.bcasts _ (mem_of_lookup_some _ _ _ ho))
       · exact hl.bcasts x hx
 
+theorem nodup_stateOf (c : Cluster) (hc : CInv c) (a : PeerName) : NoDup (c.stateOf a) := by
+  unfold Cluster.stateOf
+  cases hb : c.broker? a with
+  | none => exact nodup_nil
+  | some x => exact (hc.brokers x (broker?_mem c a x hb)).nodup
+
 theorem cinv_sendFrom (c : Cluster) (a : PeerName) (d : Pending) (to : List PeerName) (hc : CInv c)
     (hd : ∀ m, d = .data m → NoDup m) : CInv (c.sendFrom a d to) := by
   unfold Cluster.sendFrom
@@ -438,7 +450,7 @@ theorem cinv_sendFrom (c : Cluster) (a : PeerName) (d : Pending) (to : List Peer
   | nil => exact hc
   | cons x to ih =>
     rw [List.foldl_cons]
-    exact ih _ (cinv_setLink c a x _ hc (linkInv_send _ d (linkInv_link c hc a x) hd))
+    exact ih _ (cinv_setLink c a x _ hc (linkInv_send _ _ (nodup_stateOf c hc a) d (linkInv_link c hc a x) hd))
 
 theorem cinv_broadcastFrom (c : Cluster) (a src : PeerName) (m : Map) (to : List PeerName) (hc : CInv c)
     (hm : NoDup m) : CInv (c.broadcastFrom a src m to) := by
@@ -640,12 +652,7 @@ theorem cinv_step_pick (c : Cluster) (a b src : PeerName) (hc : CInv c) :
       · exact hl.wire w h
       · rw [List.mem_singleton] at h
         subst h
-        cases g with
-        | complete =>
-          cases hb : c.broker? a with
-          | none => exact nodup_nil
-          | some x => exact (binv_of_broker? c hc a x hb).nodup
-        | data m => exact hl.gossip m hg
+        exact nodup_payload _ (nodup_stateOf c hc a) g (fun m hm => hl.gossip m (by rw [hg, hm]))
     · split
       · rename_i m hm
         apply cinv_setLink _ _ _ _ hc
@@ -663,7 +670,7 @@ theorem cinv_step_pick (c : Cluster) (a b src : PeerName) (hc : CInv c) :
 theorem cinv_step_gossip (c : Cluster) (a b : PeerName) (hc : CInv c) :
     CInv (c.step (.gossip a b)).1 := by
   simp only [Cluster.step]
-  exact cinv_setLink c a b _ hc (linkInv_send _ _ (linkInv_link c hc a b) (by intro m h; cases h))
+  exact cinv_setLink c a b _ hc (linkInv_send _ _ (nodup_stateOf c hc a) _ (linkInv_link c hc a b) (by intro m h; cases h))
 
 theorem cinv_step_linkDown (c : Cluster) (a b : PeerName) (hc : CInv c) :
     CInv (c.step (.linkDown a b)).1 := by
